@@ -316,7 +316,33 @@ def render_rs(funcs):
     return "\n".join(w.lines) + "\n", headers
 
 
-def render(funcs, lang):
+def compact(text, headers):
+    """Re-layout brace languages: every top-level function / class on ONE physical line (blocks opened on the same
+    line); -> (text, headers). Comment lines are dropped, statements already end in ';' or '}'."""
+    out, new_headers, cur, start = [], {}, [], None
+    inv = {ln: name for name, ln in headers.items()}
+    depth = 0
+    for i, line in enumerate(text.split("\n"), start=1):
+        s = line.strip()
+        if not s or s.startswith("//"):
+            continue
+        if depth == 0:
+            start = len(out) + 1
+        if i in inv:
+            new_headers[inv[i]] = start
+        cur.append(s)
+        depth += s.count("{") - s.count("}")
+        if depth == 0:
+            out.append(" ".join(cur))
+            cur = []
+    if cur:
+        out.append(" ".join(cur))
+    return "\n".join(out) + "\n", new_headers
+
+
+def render(funcs, lang, layout="lines"):
+    if layout == "compact" and lang != "py":
+        return compact(*render(funcs, lang))
     if lang == "py":
         return render_py(funcs)
     if lang == "ts":
